@@ -5,7 +5,7 @@
 PROP = {
     "lean_modules": ["GunYu.Props.C15", "GunYu.Props.C15Etcd", "GunYu.Props.C15Ticker", "GunYu.Props.C15TickerEq",
                      "GunYu.Props.C15Arith", "GunYu.Props.C15Cluster", "GunYu.Props.C15ClusterRun", "GunYu.Props.C15EtcdJunk", "GunYu.Props.C15TickerDl", "GunYu.Props.C15Sim", "GunYu.Props.C15Loop"],
-    "gens": ["c15etcd", "c15ticker", "c15arith"],
+    "gens": ["c15etcd", "c15ticker", "c15arith", "c15globals"],
     "audit_namespaces": ["GunYu.Props.C15"],
     "required_theorems": [
         "GunYu.Props.C15.at_most_one_holder",
@@ -105,6 +105,9 @@ PROP = {
         # loop shape of the ticker (executed under virtual time as well): what the ticker theorems are about
         "lease_skel_clusterTicker": "b413045d51e23d82",
         "lease_ticker_retry": "2",
+        # dimension audit: package-level vars of pkg/cluster written after init (none: ErrNoLeader / ErrNotLeader are only read);
+        # the election objects hold no shared mutable state besides the client connection (shared ops)
+        "lease_pkg_globals_written": [],
         "lease_timer_arm": "time.Until(leaseFrom.Add(sc.leaseHold()))",
         "lease_timer_rearm": "time.Until(sentAt.Add(sc.leaseHold()))",
         # (lease_hold_expr, etcd_ttl_assign: replaced by the regenerated definitions leaseHold / etcdTtl of Gen/LeaseArith.lean
@@ -151,7 +154,17 @@ PROP = {
             "scripts of length<=4 (quick) / <=5 (thorough) for both roles (R 1.5 s, lease 5 s, campaign sent 200 ms before), each leader "
             "script of length<=2 also followed by 10 failures, + random scripts, periods 1-200 s, leases >= 3 periods: calls with their "
             "virtual instants, when/how the syncer's wait is closed and when clusterTicker RETURNS vs Lean tickerRun (exact periods / same-instant reaction are compared THERE only); shared "
-            "ops: one client shared by two elections used concurrently while a reply is stalled. LATE ANSWERS (round-8 seeded mutation): event "
+            "ops: one client shared by two elections used concurrently while a reply is stalled. DIMENSIONS DRAWN BY FORCE (session-5 audit; ALL lists of length<=3 over "
+            "{campaign a, campaign b, renew a, resign a, resign b, tick ttl/2, tick ttl+1, leader} each, counters trace_dim_*): the key held by a STRANGER "
+            "WITHOUT EXPIRY (PERSISTed / hand-written: nobody ever wins - liveness, no second leader), the key holding a's OWN value without expiry (a's "
+            "campaign wins and EXPIRE gives it a ttl), ids 'a' / 'ab' with the key holding the shorter resp. the longer one (Lua == is exact), ids '' / 'a', "
+            "calls made with an ALREADY CANCELLED context in every position (`can:<c|r|x>:..:<d|n>`: answered as usual = d, or refused with nothing sent = n "
+            "in the model; today all d: the election ignores its context); cluster store: Leader() = COMMAND GETKEYS + GET with the slot MOVED (`lm`) or "
+            "starting to MIGRATE with the key gone over (`la`) BETWEEN the two requests (in the cluster exhaustive alphabet; counters "
+            "cluster_resharding_in_mid_call_*); election object used after Resign, Renew before any Campaign: in the exhaustive lists since session 1; "
+            "two hosts with EQUAL peer strings through the real run(): observation counter contend_equal_ids_both_told_leader_observed; fix(): every clamp "
+            "boundary by force (0, <1 s, 1 s, 3 s, 3.5 s, 600 s, 600 s + 1 ns, 601 s, renew = lease/3 +- 1, negatives, MinInt64 / MaxInt64), counters "
+            "cfg_leaseTimeout_* / cfg_leaseRenewInterval_* / cfg_redisType_*. LATE ANSWERS (round-8 seeded mutation): event "
             "`late:<c|r|x>:<key>:<id>:<d|t>` - the store holds the call's request, the caller's context ENDS (cancelled by the harness = its deadline "
             "passing: cmd/syncer.go gives every election call a context with a deadline; no clock involved), then the store executes and answers; the call "
             "either waited for the late answer (d: an ordinary call in the model) or gave up (t: lost-but-applied in the model) - observed, written into "
@@ -338,6 +351,11 @@ PROP = {
         "after t:3001) and ~1.4k generated traces per run (counter etcd_ev_junk_key). At most one holder still holds (etcd_at_most_one_holder_any_keyspace): "
         "zero leaders, not two. A followers' RunFollower(leader) is then handed the junk value as the leader's address. Repair (not attempted, outside the "
         "property): accept only keys attached to a live lease / of the election key shape, or delete lease-less keys under the prefix at start-up",
+        "dimensions NOT drawn (audit): a lease key of ANOTHER TYPE (a list / hash under the election key: real Redis answers GET with WRONGTYPE, the "
+        "script aborts, Campaign returns an error - double and model know string keys only); two election OBJECTS of one process on one key used "
+        "alternately (runCluster creates one per syncer; the objects are stateless today, fact lease_pkg_globals_written = []); MOVED / ASK between the "
+        "requests of a call exists for Leader() only (the other calls are ONE request); cluster.metaEtcd options other than ttl (endpoints, auth) reach "
+        "only NewEtcdCluster, which no harness can run",
         "cluster-type lease store: model of its own (Model/LeaseCluster.lean: per-node key spaces, slot owner, MIGRATING/IMPORTING, client redirections "
         "MOVED / ASK+ASKING) with a PROVED refinement to the single store for whole runs (cluster_run_refines; CWf = a key of a migrating slot is live on "
         "one of the two nodes only - kept by every event of the model, established by `begin`); the model's `serve` and the double's routing are two hand "
